@@ -697,7 +697,9 @@ func TestVerifC16Arb(t *testing.T) {
 	h.Close("one case = a cluster (5-10 pods over 3 nodes x 2 namespaces x 3 workloads with replicas in {1,3,5,8,12,20}; pod states: Ready / not Ready, terminating " +
 		"(deletionTimestamp, Ready or not), phase Pending / Succeeded / Failed, 1/10 with the evict annotation; limits global/node/namespace in {nil,0,1,2,3}, per-workload " +
 		"nil / int / percent / malformed string, SkipEvictionGates subsets 1/5, SkipCheckExpectedReplicas 1/8), 0-4 pre-existing jobs (running / passed / finished / waiting / " +
-		"dangling pod / nil PodRef), then 6-14 ops: create-through-Filter, arbitration round (1/6 with a failing Update), phase changes through the event handler, pod deletion, " +
+		"dangling pod / nil PodRef; PodRef shape of a directly created job: UID + namespace/name 1/2, namespace/name only 1/5, UID only 1/10, stale UID + right name 3/20, " +
+		"UID of one pod + name of another 1/20 (makes WF false)), then 6-14 ops: job created by somebody else with a partial PodRef (1/20), create-through-Filter (1/3 aimed at " +
+		"a pod that already has an open job), arbitration round (1/6 with a failing Update), phase changes through the event handler, pod deletion, " +
 		"readiness flips, pod becomes terminating / changes phase, controller restart (new arbitrator, Create event per job). Every third case is the headroom stream: one workload of " +
 		"4-8 replicas, small maxUnavailable, 1-3 replicas unavailable in the different ways, waiting jobs on the others. " +
 		"Non-trivial = some round both admitted a job and left one waiting")
